@@ -464,8 +464,108 @@ pub fn regressions() -> Vec<Program> {
     ]
 }
 
+// ---- a line that fails leaves no trace -----------------------------------------------------------
+
+/// a free-form script: assignments (valid, failing in the parser, failing in the interpreter) and uses over
+/// names that contain each other as words - bound or not
+#[derive(Clone, Debug, Serialize, Deserialize)]
+pub struct Script {
+    pub lines: Vec<String>,
+}
+
+pub struct NoTrace;
+
+impl Prop for NoTrace {
+    type Case = Script;
+    fn name(&self) -> &'static str {
+        "failed-lines-leave-no-trace"
+    }
+    fn check(&self, w: &mut Worker, c: &Script) -> Verdict {
+        let cfg = Cfg::default();
+        let text = c.lines.join("\n");
+        let rendered = text.replace('\n', " ; ");
+        let full = match w.eval(&cfg, "en", &text) {
+            Ok(o) => o,
+            Err(p) => return Verdict::fail(format!("panic at {}: {}", p.site, p.message), rendered),
+        };
+        if full.slots.len() != c.lines.len() {
+            return Verdict::fail(format!("{} slots for {} lines", full.slots.len(), c.lines.len()), rendered);
+        }
+        let failed: Vec<usize> = full.slots.iter().enumerate().filter(|(_, s)| matches!(s, Slot::Err(_))).map(|(i, _)| i).collect();
+        let mut acc = Acc::new();
+        let mut failed_assignment_then_mention = false;
+        if !failed.is_empty() {
+            // remove ONE failing line at a time: every other line - whether it evaluates or fails - must give
+            // exactly what it gave before (a line that only failed because of what an earlier failing line left
+            // behind would now evaluate)
+            'outer: for f in &failed {
+                let kept: Vec<usize> = (0..c.lines.len()).filter(|i| i != f).collect();
+                if kept.is_empty() {
+                    continue;
+                }
+                let clean_text = kept.iter().map(|i| c.lines[*i].clone()).collect::<Vec<_>>().join("\n");
+                let clean = match w.eval(&cfg, "en", &clean_text) {
+                    Ok(o) => o,
+                    Err(p) => return Verdict::fail(format!("panic at {}: {}", p.site, p.message), rendered),
+                };
+                if clean.slots.len() != kept.len() {
+                    return Verdict::fail(format!("{} slots for {} kept lines", clean.slots.len(), kept.len()), rendered);
+                }
+                for (k, i) in kept.iter().enumerate() {
+                    if !full.slots[*i].same(&clean.slots[k]) {
+                        acc.fail(format!("line {} {:?} gives {}, but in the same program without the failing line {} {:?} it gives {}", i + 1, c.lines[*i], full.slots[*i].brief(), f + 1, c.lines[*f], clean.slots[k].brief()));
+                        break 'outer;
+                    }
+                }
+            }
+            for f in &failed {
+                if let Some((lhs, _)) = c.lines[*f].split_once('=') {
+                    let lhs = lhs.trim().to_lowercase();
+                    let last_word = lhs.split(' ').last().unwrap_or("").to_string();
+                    if !lhs.is_empty() && c.lines[*f + 1..].iter().any(|l| l.to_lowercase().contains(&last_word)) {
+                        failed_assignment_then_mention = true;
+                    }
+                }
+            }
+        }
+        acc.finish(rendered).nt(failed_assignment_then_mention).class_if(!failed.is_empty(), "has-failing-lines").class_if(failed_assignment_then_mention, "failed-assignment-then-the-name-is-mentioned")
+    }
+}
+
+pub fn script_strategy() -> impl Strategy<Value = Script> {
+    let names = prop::sample::select(vec!["rent", "big rent", "rent total", "total", "total cost", "total cost net", "x", "my", "my age"]);
+    let good = prop::sample::select(vec!["5", "7,5", "10 usd", "3 kg", "2 hours", "12/12/2020", "10%", "11:30", "0x10", "1 day 3 hours"]);
+    let bad_rhs = prop::sample::select(vec!["1 +", "(", "", ") 5", "(2 * 3", "10 + 1 hour", "2 * 3 usd", "11:30 * 11:30", "5 - 12:30", "10 km * 2 kg", "1 day + 5"]);
+    let tail = prop::sample::select(vec!["", " * 2", " + 1", " to try", " as minutes", " to lb", " hours", " to EST", " + 10%"]);
+    let line = (0u8..12, names.clone(), names, good.clone(), good, bad_rhs, tail, 0u8..5).prop_map(|(k, n, m, a, b, bad, tail, cp)| {
+        let n = recase(n, cp, 0x5a5a);
+        match k {
+            0 | 1 | 2 => format!("{} = {}", n, a),
+            3 | 4 => format!("{} = {}", n, bad),
+            5 => format!("{} = {} + {}", n, m, b),
+            6 => format!("{} = {}{}", n, m, tail),
+            7 | 8 => format!("{}{}", n, tail),
+            9 => format!("{} + {}", a, n),
+            10 => format!("{} {}", n, m),
+            _ => format!("-{}", n),
+        }
+    });
+    prop::collection::vec(line, 2..9).prop_map(|lines| Script { lines })
+}
+
+pub fn script_regressions() -> Vec<Script> {
+    let s = |l: &[&str]| Script { lines: l.iter().map(|x| x.to_string()).collect() };
+    vec![
+        // F32: a first assignment that fails in the interpreter left an empty name behind that hid `rent`
+        s(&["rent = 5", "big rent = 10 + 1 hour", "big rent * 2"]),
+        s(&["x = 10 + 1 hour", "x", "3 x"]),
+        s(&["rent = 5", "rent total = 2 * 3 usd", "rent total", "rent"]),
+        s(&["my = 2", "my age = 1 +", "my age hours"]),
+    ]
+}
+
 pub fn run(ctx: &Ctx) {
-    ctx.rule("generated straight-line programs of up to 14 statements over 8 names (one-, two- and three-word, word-prefixes of each other: total / total cost / total cost net; two with non-ASCII letters whose case mapping is one-to-one: ürün, цена нетто), names written in random letter case at every occurrence: assignments of literals of seven kinds (number, percent, money, duration, date, time, unit quantity), copies, arithmetic incl. self-reference, uses (name alone, name op operand, -name, n * -name, conversion / percentage / date / zone / unit / duration / unix / base sentences), broken assignments to existing names (= 1 +, = (, =, type error) and garbage lines; oracle: environment model holding the value OBSERVED at the binding, and substitution: each line must evaluate exactly like the same line with every name replaced by a literal spelling of the model's value on a variable-free session; the whole program is also run line by line through one re-used Session and must give the same slots; non-trivial = a name bound twice and used afterwards, a failing line between a binding and a use, a copy whose source is re-bound, two prefix-related names live");
+    ctx.rule("generated straight-line programs of up to 14 statements over 8 names (one-, two- and three-word, word-prefixes of each other: total / total cost / total cost net; two with non-ASCII letters whose case mapping is one-to-one: ürün, цена нетто), names written in random letter case at every occurrence: assignments of literals of seven kinds (number, percent, money, duration, date, time, unit quantity), copies, arithmetic incl. self-reference, uses (name alone, name op operand, -name, n * -name, conversion / percentage / date / zone / unit / duration / unix / base sentences), broken assignments to existing names (= 1 +, = (, =, type error) and garbage lines; oracle: environment model holding the value OBSERVED at the binding, and substitution: each line must evaluate exactly like the same line with every name replaced by a literal spelling of the model's value on a variable-free session; the whole program is also run line by line through one re-used Session and must give the same slots; second sub-check (free-form scripts over names that contain each other as words, with assignments failing in the parser or in the interpreter - also first-time assignments): with any ONE failing line removed, every other line - evaluating or failing - gives exactly what it gave before; non-trivial = a name bound twice and used afterwards, a failing line between a binding and a use, a copy whose source is re-bound, two prefix-related names live");
     ctx.assume("a name is used only after the model has a spellable binding for it (statements that would mention an unbound or unspellable name are skipped and counted)");
     ctx.run_table(&Programs, "regressions", regressions(), false);
     let max = match ctx.tier {
@@ -473,11 +573,14 @@ pub fn run(ctx: &Ctx) {
         crate::engine::Tier::Thorough => 14,
     };
     ctx.run_generated(&Programs, ctx.tier.pick(30_000, 300_000), || program_strategy(max));
+    ctx.run_table(&NoTrace, "regressions", script_regressions(), false);
+    ctx.run_generated(&NoTrace, ctx.tier.pick(60_000, 600_000), script_strategy);
 }
 
 pub fn replay(w: &mut Worker, sub: &str, case: &serde_json::Value) -> Option<Verdict> {
     match sub {
         "programs" => crate::engine::replay_case(&Programs, w, case),
+        "failed-lines-leave-no-trace" => crate::engine::replay_case(&NoTrace, w, case),
         _ => None,
     }
 }
